@@ -344,7 +344,14 @@ def _add_foreign_sharded(exp_nodes, base_tree, app_path, requested, sharded_info
     added = []
     have = {p for p, _, _, _ in _walk(base_tree, app_path)}
     for p in requested:
-        if p in have or p not in sharded_info or not p.startswith(app_path + "/"):
+        if p not in sharded_info or not p.startswith(app_path + "/"):
+            continue
+        if p in have:
+            node = _find(base_tree, app_path, p)
+            if not (isinstance(node, Leaf) and node.kind == "sh"):
+                # the logical path of a sharded tensor saved by another rank names a DIFFERENT, non-sharded leaf on the
+                # base rank (list indices are shifted between the ranks): no application state can ask for both
+                raise Irregular(p)
             continue
         key, parent_path, leafobj = sharded_info[p]
         parent_exp = exp_nodes.get(parent_path)
